@@ -260,6 +260,11 @@ func hmacSection(x *h.X) {
 	if hash == "SHA384" || hash == "SHA512" {
 		maxLen = 520
 	}
+	if id != ids(x)[0] || (x.Thorough() && path != "hmac.NewMAC" && tsize != 10 && tsize != d) {
+		// the long sweep once per (hash, key size, variant[, path]): other ids only change the prefix, and in the
+		// thorough tier the other construction paths get it at the two extreme tag sizes
+		maxLen = 2*maxLen/5 - 2
+	}
 	exercise(x, m, want, maxLen, len(pre), otherPrefixes(v, id), cfg)
 }
 
